@@ -159,6 +159,9 @@ CELLS['rhombo-'] = np.array([[20., 0, 0], [-8., 18.0, 0], [-7., -6.0, 17.0]])   
 # cells only a little wider than a long pattern (the pattern spans more than half a cell edge); used with a single copy
 SMALL_CELLS = {'small': np.array([[9.0, 0, 0], [0, 9.5, 0], [0, 0, 10.0]]), 'small-tri': np.array([[9.5, 0, 0], [2.0, 9.5, 0], [1.5, 2.0, 10.0]])}
 PATTERNS['long5'] = ('CNOFS', [[0., 0, 0], [1.4, 0.5, 0.1], [2.9, -0.4, 0.6], [4.5, 0.3, -0.5], [6.2, 0.0, 0.2]])
+# a wide, nearly planar but chiral pattern: four atoms in a plane (no symmetry), the fifth 0.25 A above it -- its mirror image through the
+# plane differs by 0.5 A in one atom only
+PATTERNS['nearflat5'] = ('CNOFS', [[0., 0, 0], [4.0, 0, 0], [1.5, 3.5, 0], [-2.5, 2.0, 0], [1.0, 1.2, 0.25]])
 PATTERNS['pair-y'] = ('CN', [[0., 0, 0], [0., 1.2, 0]])
 PATTERNS['collinear3-y'] = ('CNO', [[0., 0, 0], [0, 1.1, 0], [0, 2.5, 0]])
 PATTERNS['planar3-y'] = ('CNO', [[0., 0, 0], [0.1, 1.9, 0], [1.2, 0.5, 0]])
